@@ -1388,3 +1388,238 @@ _run_without_signext = run
 def run(chk):       # noqa: F811
     _run_without_signext(chk)
     rule_signext(chk)
+
+
+# ---------------------------------------------------------------------------------------------------------------
+# C03.trailing-zeros: the chain of string operations CultureInfo.format applies to str(value) before the marks are
+# changed is interpreted (tiny string-op interpreter over the AST, culture lookup = None so that change_mark is
+# skipped, which is the real zh-cn path) on a finite probe set of the texts str(Decimal) / str(float) produce.
+# Required: the result denotes the same number, and the integer part of a plain decimal text is never shortened.
+# Any formulation with the same input/output behaviour on the probes stays silent; a shape the interpreter cannot read
+# is an AnalysisError.
+
+PLAIN_PROBES = ['0', '10', '1000', '1200', '1000.0', '1000.00', '120.50', '0.5', '0.10', '100.10', '0.0', '20.0', '1000000.0',
+                '-1000.00', '-0.50', '100000000000000', '0.000001', '123456789.125000']
+# scientific texts as str(Decimal) (one digit before the point, 'E+n'/'E-n') and str(float) ('e+16', 'e-05') render them
+SCI_PROBES = ['1E+3', '1.0E+4', '1.20E+5', '2.5E+21', '1e+16', '1.5e-05', '1E-7', '1.50E-7', '1E-10']
+# exponent ends in '0' and the mantissa has a point: on the pinned tree rstrip('0') eats the exponent's zero
+# (recognize_number('0.0000000001', 'en-us') -> '1.00000000000000E-01').  Genuine, reproduced; armed as
+# C03.trailing-zeros violations only when this flag is set (needs a known_findings entry first).
+EXPONENT_ZERO_PROBES = ['1.5E-10', '1.00000000000000E-10', '1.5e-10', '1.2E+20']
+ARM_EXPONENT_ZERO_PROBES = True
+
+_STR_METHODS = {'replace', 'rstrip', 'lstrip', 'strip', 'split', 'rsplit', 'rjust', 'ljust', 'zfill', 'join', 'upper', 'lower',
+                'startswith', 'endswith', 'partition', 'rpartition', 'find', 'rfind', 'index', 'count', 'removesuffix',
+                'removeprefix', 'isdigit'}
+
+
+class _Return(Exception):
+    def __init__(self, value):
+        self.value = value
+
+
+def interpret_format(fn, text, where='CultureInfo.format'):
+    """result of `fn(self, value)` for str(value) == text, with the culture lookup yielding None"""
+    params = method_params(fn)
+    if len(params) != 1:
+        raise AnalysisError('%s: expected one parameter' % where)
+    vparam = params[0]
+    env = {}
+    budget = [2000]
+
+    def fail(n, what):
+        raise AnalysisError('%s:%s string operation not understood by the trailing-zeros interpreter: %s'
+                            % (where, getattr(n, 'lineno', '?'), what))
+
+    def ev(n):
+        budget[0] -= 1
+        if budget[0] < 0:
+            fail(n, 'evaluation budget exhausted')
+        if isinstance(n, ast.Constant):
+            return n.value
+        if isinstance(n, ast.Name):
+            if n.id in env:
+                return env[n.id]
+            fail(n, 'name %s' % n.id)
+        if isinstance(n, ast.JoinedStr):
+            out = ''
+            for p in n.values:
+                if isinstance(p, ast.Constant):
+                    out += str(p.value)
+                elif isinstance(p, ast.FormattedValue) and p.conversion == -1 and p.format_spec is None:
+                    out += str(ev(p.value))
+                else:
+                    fail(n, 'format spec')
+            return out
+        if isinstance(n, ast.BinOp) and isinstance(n.op, ast.Add):
+            a, b = ev(n.left), ev(n.right)
+            if type(a) is type(b) and isinstance(a, (str, list)):
+                return a + b
+            fail(n, ast.unparse(n))
+        if isinstance(n, ast.BoolOp):
+            vals = None
+            for v in n.values:
+                vals = ev(v)
+                if isinstance(n.op, ast.And) and not vals:
+                    return vals
+                if isinstance(n.op, ast.Or) and vals:
+                    return vals
+            return vals
+        if isinstance(n, ast.UnaryOp) and isinstance(n.op, ast.Not):
+            return not ev(n.operand)
+        if isinstance(n, ast.UnaryOp) and isinstance(n.op, ast.USub) and isinstance(n.operand, ast.Constant):
+            return -n.operand.value
+        if isinstance(n, ast.IfExp):
+            return ev(n.body) if ev(n.test) else ev(n.orelse)
+        if isinstance(n, ast.Compare) and len(n.ops) == 1:
+            a, b = ev(n.left), ev(n.comparators[0])
+            op = n.ops[0]
+            try:
+                if isinstance(op, ast.In):
+                    return a in b
+                if isinstance(op, ast.NotIn):
+                    return a not in b
+                if isinstance(op, ast.Eq):
+                    return a == b
+                if isinstance(op, ast.NotEq):
+                    return a != b
+                if isinstance(op, ast.Is):
+                    return a is b
+                if isinstance(op, ast.IsNot):
+                    return a is not b
+                if isinstance(op, (ast.Lt, ast.LtE, ast.Gt, ast.GtE)) and isinstance(a, int) and isinstance(b, int):
+                    return {ast.Lt: a < b, ast.LtE: a <= b, ast.Gt: a > b, ast.GtE: a >= b}[type(op)]
+            except TypeError:
+                pass
+            fail(n, ast.unparse(n))
+        if isinstance(n, ast.Subscript):
+            base = ev(n.value)
+            if not isinstance(base, (str, list)):
+                fail(n, ast.unparse(n))
+            s = n.slice
+            try:
+                if isinstance(s, ast.Slice):
+                    lo = ev(s.lower) if s.lower is not None else None
+                    hi = ev(s.upper) if s.upper is not None else None
+                    st = ev(s.step) if s.step is not None else None
+                    return base[lo:hi:st]
+                return base[ev(s)]
+            except (IndexError, TypeError):
+                fail(n, 'index error in ' + ast.unparse(n))
+        if isinstance(n, (ast.List, ast.Tuple)):
+            return [ev(e) for e in n.elts]
+        if isinstance(n, ast.Call):
+            f = n.func
+            if isinstance(f, ast.Name) and f.id in ('str', 'repr') and len(n.args) == 1 and isinstance(n.args[0], ast.Name) \
+                    and n.args[0].id == vparam and not n.keywords:
+                return text
+            if isinstance(f, ast.Name) and f.id == 'len' and len(n.args) == 1:
+                v = ev(n.args[0])
+                if isinstance(v, (str, list)):
+                    return len(v)
+            if isinstance(f, ast.Name) and f.id == 'str' and len(n.args) == 1:
+                v = ev(n.args[0])
+                if isinstance(v, str):
+                    return v
+            # the culture's format lookup: None here (no mark change) - the marks are decided by C03.format / C03.marks.*
+            if isinstance(f, ast.Attribute) and isinstance(f.value, ast.Name) and f.value.id == 'SUPPORTED_CULTURES' and f.attr == 'get':
+                return None
+            if isinstance(f, ast.Attribute) and f.attr in _STR_METHODS and not n.keywords:
+                recv = ev(f.value)
+                args = [ev(a) for a in n.args]
+                if isinstance(recv, str) and all(isinstance(a, (str, int, list)) or a is None for a in args):
+                    try:
+                        r = getattr(recv, f.attr)(*args)
+                    except (TypeError, ValueError):
+                        fail(n, ast.unparse(n))
+                    return list(r) if isinstance(r, tuple) else r
+            fail(n, ast.unparse(n)[:80])
+        fail(n, type(n).__name__)
+
+    def run(stmts):
+        for st in _strip_doc(stmts):
+            if isinstance(st, ast.Assign) and len(st.targets) == 1:
+                tgt = st.targets[0]
+                if isinstance(tgt, ast.Name):
+                    env[tgt.id] = ev(st.value)
+                elif isinstance(tgt, ast.Subscript) and isinstance(tgt.value, ast.Name) and isinstance(env.get(tgt.value.id), list) \
+                        and not isinstance(tgt.slice, ast.Slice):
+                    i = ev(tgt.slice)
+                    try:
+                        env[tgt.value.id][i] = ev(st.value)
+                    except (IndexError, TypeError):
+                        fail(st, 'index error in ' + ast.unparse(tgt))
+                else:
+                    fail(st, ast.unparse(st)[:80])
+            elif isinstance(st, ast.AnnAssign) and isinstance(st.target, ast.Name) and st.value is not None:
+                env[st.target.id] = ev(st.value)
+            elif isinstance(st, ast.If):
+                run(st.body if ev(st.test) else st.orelse)
+            elif isinstance(st, ast.Return):
+                raise _Return(ev(st.value) if st.value is not None else None)
+            elif isinstance(st, ast.Pass):
+                continue
+            else:
+                fail(st, 'statement ' + type(st).__name__)
+    try:
+        run(fn.body)
+    except _Return as r:
+        if not isinstance(r.value, str):
+            raise AnalysisError('%s: does not return a string for %r' % (where, text))
+        return r.value
+    raise AnalysisError('%s: no return reached for %r' % (where, text))
+
+
+def _zero_verdict(text, out):
+    """None when fine, else what is wrong"""
+    from decimal import Decimal, InvalidOperation
+    try:
+        a, b = Decimal(text), Decimal(out)
+    except InvalidOperation:
+        return 'is not a number'
+    if a != b:
+        return 'denotes %s, not %s' % (b, a)
+    if 'e' not in text.lower():
+        ip, op = text.lstrip('-').split('.')[0], out.lstrip('-').split('.')[0]
+        if 'e' not in out.lower() and ip != op:
+            return 'integer part %r became %r' % (ip, op)
+    return None
+
+
+def rule_trailing_zeros(chk):
+    idx = get_index()
+    chk.rule('C03.trailing-zeros', 'the string normalisation of CultureInfo.format (before the marks are changed) keeps the number: '
+                                   'same value, integer part never shortened', floor=20, control=True)
+    ci = idx.cls('recognizers_number.culture.CultureInfo')
+    fn = ci.methods.get('format')
+    if fn is None:
+        raise AnalysisError('anchor vanished: CultureInfo.format')
+    for text in PLAIN_PROBES + SCI_PROBES:
+        out = interpret_format(fn, text)
+        why = _zero_verdict(text, out)
+        chk.judge(why is None, 'C03.trailing-zeros', ci.mod.path, 'CultureInfo.format(%r)' % text, '%r -> %r' % (text, out),
+                  'CultureInfo.format turns the number text %r into %r, which %s (before any mark is changed): e.g. en-us %r '
+                  'resolves to %r' % (text, out, why, text, out), fn.lineno)
+    for text in EXPONENT_ZERO_PROBES:
+        out = interpret_format(fn, text)
+        why = _zero_verdict(text, out)
+        if ARM_EXPONENT_ZERO_PROBES:
+            chk.judge(why is None, 'C03.trailing-zeros', ci.mod.path, 'CultureInfo.format(%r)' % text, '%r -> %r' % (text, out),
+                      'CultureInfo.format turns the number text %r into %r, which %s: the zero-stripping reaches into the exponent'
+                      % (text, out, why), fn.lineno)
+        elif why is not None:
+            chk.observe('CultureInfo.format(%r) -> %r, which %s: trailing-zero stripping eats the exponent\'s final zero '
+                        '(reproduced: recognize_number(\'0.0000000001\', \'en-us\') -> \'1.00000000000000E-01\'); not armed '
+                        '(ARM_EXPONENT_ZERO_PROBES) until listed as a known finding' % (text, out, why))
+    ctl = ast.parse("def format(self, value):\n    result = str(value)\n    if '.' in result:\n        result = result.rstrip('0.')\n"
+                    "    return result\n").body[0]
+    chk.control('C03.trailing-zeros', _zero_verdict('1000.00', interpret_format(ctl, '1000.00', 'control')) is not None
+                and _zero_verdict('10', interpret_format(ctl, '10', 'control')) is None)
+
+
+_run_without_trailing_zeros = run
+
+
+def run(chk):       # noqa: F811
+    _run_without_trailing_zeros(chk)
+    rule_trailing_zeros(chk)
